@@ -321,9 +321,10 @@ class E1Session(SessionBase):
             self.st.probes['multiband_mux_demux_executed'] += 1
         return None
 
-    def do_propagate(self, src, dst, spec, copy):
+    def do_propagate(self, src, dst, spec, copy, reuse=False):
         if self.discarded:
             return {'kind': 'discarded'}
+        key = jdigest([src, dst, spec])
         sites = self.world['meta']['sites']
         a, b = sites[src % len(sites)], sites[dst % len(sites)]
         if a == b:
@@ -337,6 +338,12 @@ class E1Session(SessionBase):
         params.update(trx_mode_params(self.equipment))
         req = PathRequest(**params)
         req.initial_spectrum = None
+        if reuse and getattr(self, 'last_req', (None, None))[0] == key:
+            # the very same request object is propagated again (power sweeps and re-propagations do this)
+            req = self.last_req[1]
+            self.st.probes['request_object_propagated_again'] += 1
+            spec = dict(spec, carriers=[])
+        self.last_req = (key, req)
         if spec['carriers']:
             f0 = si.f_min + 100e9
             spectrum = {}
@@ -523,6 +530,14 @@ def make_machine(prop, tier, cfg):
         def propagate(self, src, dst, copy, power, n, carriers):
             self.sess.apply('propagate', {'src': src, 'dst': dst, 'copy': copy,
                                           'spec': {'power_dbm': power, 'n': n, 'carriers': [list(c) for c in carriers]}})
+
+        @precondition(lambda self: self.layer == 2 and self.sess is not None and self.sess.oplog
+                      and self.sess.oplog[-1][0] == 'propagate')
+        @rule(copy=st.booleans())
+        def propagate_again(self, copy):
+            args = dict(self.sess.oplog[-1][1])
+            args.update({'copy': copy, 'reuse': True})
+            self.sess.apply('propagate', args)
 
         def teardown(self):
             if self.sess is not None:
